@@ -64,7 +64,8 @@ const (
 	SpellDotSlash                      // "./sib.json#/..."
 	SpellAbsolute                      // "file:///w/a/sib.json#/..."
 	SpellRootRel                       // "/w/a/sib.json#/..." (absolute-path reference)
-	SpellAll      = SpellFragment | SpellRelative | SpellDotSlash | SpellAbsolute | SpellRootRel
+	SpellMessy                         // absolute URLs may be written non-canonically (dot segments, upper-case scheme/host, default port)
+	SpellAll      = SpellFragment | SpellRelative | SpellDotSlash | SpellAbsolute | SpellRootRel | SpellMessy
 )
 
 // GraphOpts are the knobs a property sets.
@@ -366,7 +367,7 @@ func Spell(t *rapid.T, hdoc string, tp model.Pos, allowed Spelling) string {
 	case SpellRootRel:
 		return tu.Path + frag
 	}
-	if Pct(t, "messyabs", 20) {
+	if allowed&SpellMessy != 0 && Pct(t, "messyabs", 20) {
 		// an equivalent, non-canonical absolute URL: redundant dot segments, upper-case scheme/host, default port
 		u := *tu
 		dir, file := u.Path[:strings.LastIndex(u.Path, "/")+1], pathBase(u.Path)
@@ -503,7 +504,7 @@ func Graph(t *rapid.T, o GraphOpts) GraphCase {
 	for _, h := range s.holes {
 		cands := byKind[h.k]
 		if o.OnlyFragAbs {
-			spell = SpellFragment | SpellAbsolute
+			spell = SpellFragment | SpellAbsolute | (spell & SpellMessy)
 		}
 		if len(cands) == 0 {
 			s.plug(h)
